@@ -66,7 +66,7 @@ class _Terminate(Exception):
 
 class Occ:
     __slots__ = ("seq", "kind", "cls", "due", "trig_now", "trig_step", "event", "proc_step", "proc_now",
-                 "probes", "victim", "cause", "issuer", "delivered", "n_norm_at_issue", "pid", "hev")
+                 "probes", "victim", "cause", "issuer", "delivered", "n_norm_at_issue", "pid", "hev", "optional")
 
     def __init__(self, seq, kind, cls, due, trig_now, trig_step, event):
         self.seq = seq
@@ -82,6 +82,7 @@ class Occ:
         self.victim = None
         self.cause = None
         self.issuer = None
+        self.optional = False       # a run(until) stop whose run() was left by an exception: the kernel may keep or drop it
         self.delivered = False
         self.n_norm_at_issue = None
         self.pid = None
@@ -197,6 +198,13 @@ def make_tracing(base, peek=False):
             h.virtual_until = occ
             return occ
 
+        def h_abandon_until(self):
+            """run(until=<number>) was left by an exception before its stop took effect: whether the kernel keeps the stop as
+            a harmless entry of the agenda or takes it out again is not observable and not judged"""
+            for o in self.h.occs:
+                if o.kind == "until" and o.proc_step is None:
+                    o.optional = True
+
         def _bind_until(self, event):
             h = self.h
             occ = h.virtual_until
@@ -265,9 +273,11 @@ def make_tracing(base, peek=False):
             for hook in h.probe_hooks:
                 hook(occ)
             # reference agenda: the occurrence processed must be the minimum of what is pending
-            while h.pending and h.pending[0][1].proc_step is not None and h.pending[0][1] is not occ:
+            while h.pending and (h.pending[0][1].proc_step is not None or h.pending[0][1].optional) and h.pending[0][1] is not occ:
                 heapq.heappop(h.pending)
-            if not h.pending:
+            if occ.optional:
+                pass
+            elif not h.pending:
                 h.flag("C01.order", f"occurrence #{occ.seq} processed but nothing pending", "C01.order")
             else:
                 exp = h.pending[0][1]
@@ -579,6 +589,23 @@ class Interp:
                     continue
                 T = self._ref_proc(j, pid, True)
                 self._add_cb(pid, pc, hev, False, intr=(T, cause))
+            elif op == "chain":
+                # a private event D chained to a shared one (src.callbacks.append(D.trigger)): D takes over src's outcome when
+                # src is processed and is an event in its own right from then on (own waiters, own unhandled-failure rule)
+                _, k, wait, pol, ipol = ins
+                src = self._ref_event(k)
+                if src is None:
+                    continue
+                D = env.event()
+                hevD = self._reg(D, f"D{pid}.{pc}", "E")
+                if src.ev.processed:
+                    hevD.expect = ev_outcome(src.ev)
+                    D.trigger(src.ev)
+                else:
+                    self._add_cb(pid, pc, src, False, chain=hevD)
+                h.bump("chain")
+                if wait:
+                    yield from self._wait(pid, pc, hevD, pol, ipol)
             elif op == "cbjoin":
                 _, j, defuse = ins
                 T = self._ref_proc(j, pid, True)
@@ -658,7 +685,7 @@ class Interp:
                 h.flag("C02.trigger_once", f"{hev.name} outcome changed to {got}, first was {hev.expect}",
                        "C02.trigger_once/changed")
 
-    def _add_cb(self, pid, pc, hev, defuse, intr=None):
+    def _add_cb(self, pid, pc, hev, defuse, intr=None, chain=None):
         if hev.ev.processed:
             if hev.processed_step is None:
                 self.h.flag("C02.harness", f"{hev.name} processed but harness saw no probe", "harness/processed")
@@ -680,6 +707,11 @@ class Interp:
             if reg[2] and not ev._ok:
                 ev.defused = True
             interp.log(None, None, "cb", (cid, hev.name, got))
+            if chain is not None:
+                chain.expect = got
+                if not ev._ok and ev.defused:
+                    interp.h.bump("chain_from_handled_failure")
+                chain.ev.trigger(ev)
             if intr is not None:
                 # a plain callback may interrupt any live process: no process is active while callbacks run
                 interp.h.bump("intr_from_callback")
@@ -1074,7 +1106,7 @@ def end_checks(interp, exhausted):
             if left:
                 h.flag("C04.delivery", f"live P{P.pid} has undelivered processed interrupts", "C04.delivery/undelivered")
     if exhausted:
-        left = [o for o in h.occs if o.proc_step is None]
+        left = [o for o in h.occs if o.proc_step is None and not o.optional]
         if left:
             o = left[0]
             h.flag("C01.skipped", f"agenda empty but occurrence #{o.seq} {o.kind} due {o.due} never took effect",
